@@ -672,9 +672,9 @@ def build(spec, rng, now=None):
             content = random_content(rng_)
         window = None
         if timeline:        # tagged certificates follow their window class, helpers are always valid
-            window = validity_window((win or WINDOW_OF_TIME[time_class]) if tag else "all", clocks, rng_,
-                                     edge and tag is not None, extreme)
-            if tag:
+            window = validity_window((win or WINDOW_OF_TIME[time_class]) if tag is not None else "all",
+                                     clocks, rng_, edge and tag is not None, extreme)
+            if tag is not None:          # (an element may be NAMED "" - names are free text)
                 windows[tag] = window
         return _mk(scn, skey, icn, ikey, time_class, now_, rng_, ca=ca, content=content, style=style,
                    edge=use_edge, window=window, extreme=extreme)
@@ -702,8 +702,10 @@ def build(spec, rng, now=None):
     parent = ROOT_NAME
     xnames = []
     pending_swaps = []
-    for xs in list(sp["x509"]) + list(sp.get("extra") or []):
-        cns[xs["name"]] = "verif %s %d" % (xs["name"], rng.getrandbits(32))
+    # (common names are numbered, not derived from the element names: those are free text in version 2 -
+    # empty, very long, non-ASCII ... - while an X.509 common name is not)
+    for k, xs in enumerate(list(sp["x509"]) + list(sp.get("extra") or [])):
+        cns[xs["name"]] = "verif ca %d %d" % (k, rng.getrandbits(32))
     if sp.get("embed"):
         cns["embedded:" + ROOT_NAME] = root_cn if sp["embed"]["kind"] == "genuine" else cns["foreign_root"]
     pool = _key_pool(int(sp["key_pool"])) if sp.get("key_pool") else None
@@ -763,7 +765,7 @@ def build(spec, rng, now=None):
     for xs in sp.get("extra") or []:
         n = xs["name"]
         p = xs.get("parent", ROOT_NAME)
-        keys[n] = keys[xs["samekey_as"]] if xs.get("samekey_as") else Key(xs.get("curve", "P256"))
+        keys[n] = keys[xs["samekey_as"]] if xs.get("samekey_as") is not None else Key(xs.get("curve", "P256"))
         signer = keys[p] if xs.get("sig", "parent") != "other" else other_key(keys[p])
         der[n] = make_x509(cns[n], keys[n], cns[p], signer, xs.get("time", "Valid"), now, rng,
                            use_edge=edge, tag=n, win=xs.get("window"))
@@ -1147,7 +1149,7 @@ def abstract_of(mat, effects=None, at=None):
     for xs in sp["x509"]:
         keyid[xs["name"]] = ROOT_NAME if xs.get("is_root") else xs["name"]
     for xs in sp.get("extra") or []:
-        keyid[xs["name"]] = xs.get("samekey_as") or xs["name"]
+        keyid[xs["name"]] = xs["samekey_as"] if xs.get("samekey_as") is not None else xs["name"]
     els = {}
     unspecified = any("encoding" in v for v in effects.values())
 
@@ -1160,7 +1162,8 @@ def abstract_of(mat, effects=None, at=None):
             t, w = time_win(n, root_item)
             return {"kind": "x509", "by": rep.get(n, orig_parent), "key": ROOT_NAME,
                     "sigBy": "other" if flipped else ROOT_NAME, "naming": "canon", "time": t, "win": w,
-                    "curve": _curve_class(mat["keys"][ROOT_NAME]), "binds": True, "keyValid": True}
+                    "curve": _curve_class(mat["keys"][ROOT_NAME]), "binds": True, "keyValid": True,
+                    "label": xs.get("label", "plain")}
         sig_ok = xs.get("sig", "parent") == "parent" and not flipped
         if xs.get("sig") == "foreign" and not flipped:
             signer = "foreign"
@@ -1170,7 +1173,7 @@ def abstract_of(mat, effects=None, at=None):
         return {"kind": "x509", "by": rep.get(n, orig_parent), "key": keyid[n],
                 "sigBy": signer, "naming": xs.get("naming", "canon"),
                 "time": t, "win": w, "curve": _curve_class(mat["keys"][n]),
-                "binds": True, "keyValid": True}
+                "binds": True, "keyValid": True, "label": xs.get("label", "plain")}
     parent = ROOT_NAME
     for xs in sp["x509"]:
         els[xs["name"]] = x509_abs(xs, parent)
@@ -1184,7 +1187,7 @@ def abstract_of(mat, effects=None, at=None):
         t, w = time_win(ROOT_NAME, emb)
         els[ROOT_NAME] = {"kind": "x509", "by": ROOT_NAME, "key": ek, "sigBy": ek if self_ok else "other",
                           "naming": "canon", "time": t, "win": w, "curve": "P256", "binds": True,
-                          "keyValid": True}
+                          "keyValid": True, "label": "plain"}
     a = dict(default_spec()["attkey"])
     a.update(sp.get("attkey") or {})
     an = a["name"]
@@ -1195,7 +1198,8 @@ def abstract_of(mat, effects=None, at=None):
                "time": "na", "win": "na", "curve": "P256",
                "binds": a.get("bind", "ok") in ("ok", "ok_tail") and a.get("key", "ok") != "swapped"
                and "bind" not in eff,
-               "keyValid": a.get("key", "ok") != "offcurve" and "keybad" not in eff}
+               "keyValid": a.get("key", "ok") != "offcurve" and "keybad" not in eff,
+               "label": a.get("label", "plain")}
     q = dict(default_spec()["quote"])
     q.update(sp.get("quote") or {})
     qn = q["name"]
@@ -1204,7 +1208,7 @@ def abstract_of(mat, effects=None, at=None):
                "sigBy": an if (q.get("sig", "parent") == "parent" and "sig" not in eff) else "other",
                "time": "na", "win": "na", "curve": "na",
                "binds": q.get("bind", "ok") in ("ok", "ok_tail") and "bind" not in eff,
-               "keyValid": True}
+               "keyValid": True, "label": q.get("label", "plain")}
     which = sp.get("rot", "right")
     if which in ("right", "samekey"):
         rkey, rcurve = ROOT_NAME, _curve_class(mat["keys"][ROOT_NAME])
@@ -1220,7 +1224,7 @@ def abstract_of(mat, effects=None, at=None):
     if not clocks:
         rt, rw = "Valid", "all"        # (off a timeline the handed-over roots are always in their period)
     rot = {"kind": "x509", "by": ROOT_NAME, "key": rkey, "sigBy": ROOT_NAME, "time": rt, "win": rw,
-           "naming": "canon", "curve": rcurve, "binds": True, "keyValid": True}
+           "naming": "canon", "curve": rcurve, "binds": True, "keyValid": True, "label": "plain"}
     return {"cert": els, "rot": rot, "target": qn, "unspecified": unspecified}
 
 
